@@ -6,6 +6,9 @@ ALL = ["C%02d" % i for i in range(1, 20)]
 
 # id -> (technique, level text, level note, design ref)
 CHECKS = {
+ "C17": ("explicit-state BFS over run/clear histories on one real VM against fresh-VM outcomes + straight-line repetition",
+         "12 programs (Ok, allocating, collecting, Timeout, OutOfMemory with live data, both stack overflows, native error in a callee, leftover globals, open upvalue at the error, stray stack values) x every history of run/clear to depth 4 (thorough 6): a run on a cleared VM equals the run on a new VM in result, globals, host log, instructions, accounted memory and object count; after clear the counters, stack heights, globals, objects and open upvalues equal a new VM's; balanced programs may follow each other without clear; 300 (600) repetitions of every program.",
+         "One fixed VM configuration (64 KiB, 30000 instructions).", "DESIGN.md §4 C17"),
  "C03": ("exhaustive budget sweep (every N in a range + the values around each program's exact need) over a family of looping / callback-heavy programs, instructions counted by the dispatch hook",
          "38 programs (endless loops and recursion, native->script->native nesting to depth 3 through sort/min/max key functions, map/filter callbacks, host re-entry incl. recursion through the host, a host function swallowing the callback's error) x every budget 1..300 (thorough 2000) and needed-2..needed+3: dispatch count over all nesting levels <= N, insufficient budget => Timeout, sufficient budget => identical to the unbounded run.",
          "Timeout inside a native's callback may surface wrapped as TaskFailure(native: Timeout).", "DESIGN.md §4 C03"),
